@@ -1220,7 +1220,6 @@ def sig_failed_prepare_leaks_compression(case, params):
         any(k.lower() == "accept-encoding" for k, _ in case["req"]["headers"])
 
 
-SIGNATURES["compressor_flush_on_bodyless_response"] = sig_compress_flush_bodyless
 
 
 def ps_with_env(fn):
